@@ -1,0 +1,153 @@
+//! Verification hooks. Compiled only with `--cfg rateslib_verif`.
+//!
+//! Nothing here changes behaviour: the module only re-exports crate-private items so that an
+//! external conformance harness can drive them and project their state.
+
+use crate::curves::interpolation::utils::index_left;
+use crate::dual::{Dual, Dual2, Number};
+use crate::fx::rates::{Ccy, FXRates};
+use crate::json::json_py::DeserializedObj;
+use crate::json::JSON;
+use crate::splines::{PPSpline, PPSplineDual, PPSplineDual2, PPSplineF64};
+use chrono::NaiveDateTime;
+
+pub use crate::curves::curve_py::verif_hooks::CurveH;
+
+/// `index_left` instantiated for `f64` lists.
+pub fn index_left_f64(list: &[f64], value: &f64) -> usize {
+    index_left(list, value, None)
+}
+
+/// `index_left` instantiated for `i64` lists (the instantiation used by curves).
+pub fn index_left_i64(list: &[i64], value: &i64) -> usize {
+    index_left(list, value, None)
+}
+
+/// `get_variable_tags`
+pub fn variable_tags(name: &str, range: usize) -> Vec<String> {
+    crate::dual::get_variable_tags(name, range)
+}
+
+/// Mirror of the crate-private tagged enum used by the Python `from_json` entry point.
+pub enum Tagged {
+    Dual(Dual),
+    Dual2(Dual2),
+    Cal(crate::calendars::Cal),
+    UnionCal(crate::calendars::UnionCal),
+    NamedCal(crate::calendars::NamedCal),
+    FXRates(FXRates),
+    Curve(CurveH),
+    PPSplineF64(PPSplineF64),
+    PPSplineDual(PPSplineDual),
+    PPSplineDual2(PPSplineDual2),
+}
+
+impl Tagged {
+    pub fn to_json(self) -> Result<String, String> {
+        let obj = match self {
+            Tagged::Dual(v) => DeserializedObj::Dual(v),
+            Tagged::Dual2(v) => DeserializedObj::Dual2(v),
+            Tagged::Cal(v) => DeserializedObj::Cal(v),
+            Tagged::UnionCal(v) => DeserializedObj::UnionCal(v),
+            Tagged::NamedCal(v) => DeserializedObj::NamedCal(v),
+            Tagged::FXRates(v) => DeserializedObj::FXRates(v),
+            Tagged::Curve(v) => DeserializedObj::Curve(v.into_inner()),
+            Tagged::PPSplineF64(v) => DeserializedObj::PPSplineF64(v),
+            Tagged::PPSplineDual(v) => DeserializedObj::PPSplineDual(v),
+            Tagged::PPSplineDual2(v) => DeserializedObj::PPSplineDual2(v),
+        };
+        obj.to_json().map_err(|e| e.to_string())
+    }
+
+    /// The tagged `from_json` entry point (same call as `from_json_py` without the GIL token).
+    pub fn from_json(json: &str) -> Result<Tagged, String> {
+        match DeserializedObj::from_json(json) {
+            Ok(v) => Ok(match v {
+                DeserializedObj::Dual(v) => Tagged::Dual(v),
+                DeserializedObj::Dual2(v) => Tagged::Dual2(v),
+                DeserializedObj::Cal(v) => Tagged::Cal(v),
+                DeserializedObj::UnionCal(v) => Tagged::UnionCal(v),
+                DeserializedObj::NamedCal(v) => Tagged::NamedCal(v),
+                DeserializedObj::FXRates(v) => Tagged::FXRates(v),
+                DeserializedObj::Curve(v) => Tagged::Curve(CurveH::from_inner(v)),
+                DeserializedObj::PPSplineF64(v) => Tagged::PPSplineF64(v),
+                DeserializedObj::PPSplineDual(v) => Tagged::PPSplineDual(v),
+                DeserializedObj::PPSplineDual2(v) => Tagged::PPSplineDual2(v),
+            }),
+            Err(e) => Err(e.to_string()),
+        }
+    }
+}
+
+// Splines: the Python-facing wrappers keep `inner` crate-private.
+pub fn ppspline_f64_wrap(inner: PPSpline<f64>) -> PPSplineF64 {
+    PPSplineF64 { inner }
+}
+pub fn ppspline_dual_wrap(inner: PPSpline<Dual>) -> PPSplineDual {
+    PPSplineDual { inner }
+}
+pub fn ppspline_dual2_wrap(inner: PPSpline<Dual2>) -> PPSplineDual2 {
+    PPSplineDual2 { inner }
+}
+pub fn ppspline_f64_inner(s: &PPSplineF64) -> &PPSpline<f64> {
+    &s.inner
+}
+pub fn ppspline_dual_inner(s: &PPSplineDual) -> &PPSpline<Dual> {
+    &s.inner
+}
+pub fn ppspline_dual2_inner(s: &PPSplineDual2) -> &PPSpline<Dual2> {
+    &s.inner
+}
+
+// FX: read-only projections of crate-private fields.
+pub fn ccy_name(c: &Ccy) -> String {
+    c.name.to_string()
+}
+pub fn fxrates_currencies(f: &FXRates) -> Vec<String> {
+    f.currencies.iter().map(|c| c.name.to_string()).collect()
+}
+pub fn fxrates_quotes(f: &FXRates) -> Vec<(String, String, Number, Option<NaiveDateTime>)> {
+    f.fx_rates
+        .iter()
+        .map(|r| {
+            (
+                r.pair.0.name.to_string(),
+                r.pair.1.name.to_string(),
+                r.rate.clone(),
+                r.settlement,
+            )
+        })
+        .collect()
+}
+pub fn fxrates_ad(f: &FXRates) -> u8 {
+    match f.fx_array {
+        crate::dual::NumberArray2::F64(_) => 0,
+        crate::dual::NumberArray2::Dual(_) => 1,
+        crate::dual::NumberArray2::Dual2(_) => 2,
+    }
+}
+
+// Calendars: read-only projections of crate-private fields.
+pub fn cal_holidays(c: &crate::calendars::Cal) -> Vec<NaiveDateTime> {
+    c.holidays.iter().cloned().collect()
+}
+pub fn cal_week_mask(c: &crate::calendars::Cal) -> Vec<u8> {
+    let mut v: Vec<u8> = c
+        .week_mask
+        .iter()
+        .map(|w| w.num_days_from_monday() as u8)
+        .collect();
+    v.sort();
+    v
+}
+pub fn named_cal_name(c: &crate::calendars::NamedCal) -> String {
+    c.name.clone()
+}
+pub fn named_cal_union(c: &crate::calendars::NamedCal) -> &crate::calendars::UnionCal {
+    &c.union_cal
+}
+pub fn union_cal_parts(
+    c: &crate::calendars::UnionCal,
+) -> (&Vec<crate::calendars::Cal>, &Option<Vec<crate::calendars::Cal>>) {
+    (&c.calendars, &c.settlement_calendars)
+}
